@@ -39,6 +39,33 @@ def walk(b, dsg, ctx, taken, leaves, seen, ref_adm, props, depth=0):
                       f'graph reported infeasible after {sorted(taken.items())} although {len(ext)} admissible '
                       f'assignments extend it, e.g. {sorted(ext[0].items()) if ext else None}', nt)
     next_nodes = [n for n in dsg.get_ordered_next_choice_nodes() if isinstance(n, SelectionChoiceNode)]
+    if 'C06' in props and not feasible and depth < 6:
+        # infeasibility is a verdict on the choices made so far: taking further choices that are still offered must
+        # not turn the verdict back into "feasible" (the instance would be reported feasible although it is not the
+        # closure of any admissible assignment)
+        for cn in next_nodes:
+            if cn not in dsg.graph.nodes:
+                continue
+            cid = str(cn.decision_id)
+            try:
+                opts = list(dsg.get_option_nodes(cn))
+            except Exception:  # noqa
+                continue
+            for o in opts:
+                try:
+                    d2 = dsg.get_for_apply_selection_choice(cn, o)
+                    f2 = bool(d2.feasible)
+                except Exception:  # noqa
+                    continue
+                t2 = dict(taken)
+                t2[cid] = b.name_of.get(o)
+                ctx.check('C06.infeasible-stays-infeasible', not f2, wit + [cid, b.name_of.get(o)],
+                          f'graph reported infeasible after {sorted(taken.items())} is reported feasible again after also '
+                          f'taking {cid}={b.name_of.get(o)} (nodes {sorted(b.names(d2.graph.nodes))})', nt + (cid, b.name_of.get(o)))
+                k2 = (tuple(sorted(t2.items())), 'via-infeasible', cid)
+                if k2 not in seen and not f2:
+                    seen.add(k2)
+                    walk(b, d2, ctx, t2, [], seen, ref_adm, ('C06',), depth + 1)
     if not next_nodes or not feasible:
         if not [n for n in dsg.choice_nodes if isinstance(n, SelectionChoiceNode)] or not feasible:
             leaves.append((dict(taken), nodes, feasible, tuple(choices), der))
